@@ -2,6 +2,7 @@ import FluteModel.Drv.Util
 import FluteModel.Drv.Md5
 import FluteModel.Drv.Rs
 import FluteModel.ObjSess
+import FluteModel.ObjRecvIdeal
 /-
   Line-protocol driver of engine `orecv` (see harness/engines/orecv/src/main.rs for the op grammar).
   The driver instantiates the model's parameters:
@@ -60,42 +61,15 @@ def mkCodec (tab : List (String × Option Bytes)) : Codec where
   rFull k bs pushes := (lookupCt tab s!"r/{k}/{bs}/{symKey (canonPushes pushes)}").isSome
   rDecode k bs pushes := lookupCt tab s!"r/{k}/{bs}/{symKey (canonPushes pushes)}"
 
-def isPrefix : Bytes → Bytes → Bool
-  | [], _ => true
-  | _ :: _, [] => false
-  | a :: r, b :: s => a == b && isPrefix r s
-
-/-- ideal decompressor: state after a call history = (consumed input, number of output bytes produced).  A table entry
-    `(compressed, content, bad)` with `bad = true` is a stream whose trailer check (gzip CRC32 / zlib Adler-32) fails: all of
-    `content` is handed out, the read after the last content byte answers `Err`. -/
-def idealStep (ztab : List (Bytes × Bytes × Bool)) (stt : Bytes × Nat) (c : DzCall) : (Bytes × Nat) × DzOut :=
-  let (consumed, produced) := stt
-  let consumed' := consumed ++ c.avail
-  match ztab.find? (·.1 == consumed') with
-  | some (_, content, bad) =>
-    let out := (content.drop produced).take c.buflen
-    if bad ∧ out.isEmpty ∧ c.buflen != 0 then ((consumed', produced), { take := c.avail.length, res := .err })
-    else ((consumed', produced + out.length), { take := c.avail.length, res := .data out })
-  | none =>
-    if ztab.any (fun e => isPrefix consumed' e.1) ∧ !c.fin then
-      ((consumed', produced), { take := c.avail.length, res := .wouldBlock })
-    else ((consumed', produced), { take := c.avail.length, res := .err })
-
-def idealDz (ztab : List (Bytes × Bytes × Bool)) (cenc : Cenc) (hist : List DzCall) (c : DzCall) : DzOut :=
-  -- the first call of a history is the constructor: only the gzip decoder reads (its header) at construction
-  let isCtor (h : DzCall) : Bool := h.buflen == 0
-  let stepC (s : Bytes × Nat) (h : DzCall) : (Bytes × Nat) × DzOut :=
-    if isCtor h ∧ cenc != .gzip then (s, { take := 0, res := .wouldBlock }) else idealStep ztab s h
-  let stt := hist.foldl (fun s h => (stepC s h).1) ([], 0)
-  (stepC stt c).2
-
 def PlanSpec.toPlan (p : PlanSpec) : Plan :=
   { ans := p.ans, md5Check := p.md5Check, openOk := p.openOk, writeOk := fun k => p.failAt != some k }
 
 def DState.params (d : DState) : SParams where
   codec := mkCodec d.ctab
   dzRead := idealDz d.ztab
-  dzFuel := fun _ => 1000000
+  -- the fuel of one `decoder_read`: what the table decompressor can still hand out, plus one (`DzOK` holds literally:
+  -- Lemmas/DrvOrecvDzOK.lean `drv_params_dzOK`, from path's `idealContract`)
+  dzFuel := idealFuel d.ztab
   md5 := Md5.md5b64
   planOf toi k :=
     match d.plans.find? (·.1 == (toi, k)) with
